@@ -42,7 +42,7 @@ def build_cases(ctx):
 
 
 def twin(case):
-    return dict(case, id=case["id"] + "-twin", cfg=dict(case["cfg"], cb_raises=not case["cfg"].get("cb_raises", False)))
+    return dict(case, id=case.get("id", "replay") + "-twin", cfg=dict(case["cfg"], cb_raises=not case["cfg"].get("cb_raises", False)))
 
 
 def pair_diff(a, b):
